@@ -52,6 +52,8 @@ def class_specs(rng: random.Random, tier: str) -> Tuple[List[dict], Dict[str, in
     add("CM_LEAVES", "data", allf)
     add("CM_NEST", "data", [["hd", ["Int16"]], ["mid", ["Struct", 1]], ["mids", ["StructArray", 1, 2]],
                             ["tl", ["String", 4]]])
+    add("CM_SIGNAL", "data", [])                     # signal: no data segment, type_size == 0
+    add("CC_SIGNAL", "data", [], compiled=True)      # `fields: null` through the real compiler
     # random definitions (depth <= 2), half of them through the real compiler
     nrand = 10 if tier == "quick" else 40
     kinds = INT_KINDS + FLOAT_KINDS + ["Byte", "Char", "String", "ByteArray", "IntArray", "FloatArray"]
@@ -166,9 +168,11 @@ def gen_cases(L: Layouts, own: List[int], imported: List[int], hdr_ci: int, rng:
     nhist = 25 if tier == "quick" else 80
     for ci in own + imported:
         lv = leaves(ci)
-        if not lv:
-            continue
         is_data = L.specs[ci]["base"] == "data"
+        if not lv:
+            if is_data:
+                add(ci, [], "signal")
+            continue
         big = L.size(ci) > 4000
         add(ci, [], "zero")
         # every leaf at an extreme
@@ -230,7 +234,8 @@ def gen_cases(L: Layouts, own: List[int], imported: List[int], hdr_ci: int, rng:
                 break
     # header + data (Message.to_json / from_json, version check)
     hl = leaves(hdr_ci)
-    datas = [ci for ci in own if L.specs[ci]["base"] == "data"]
+    datas = [ci for ci in own if L.specs[ci]["base"] == "data"] + \
+            [ci for ci in imported if L.specs[ci]["base"] == "data" and L.size(ci) == 0][:8]
     for ci in datas:
         th = L.lay[ci]["type_hash"]
         tid = L.lay[ci]["type_id"]
@@ -360,6 +365,10 @@ def oracle(case: dict, res: dict, lv: List[dict], hlv: List[dict], L: Layouts) -
                     why = classify_diff(orig, gd, lv, True)
                     for k in (why.split("+") if set(why.split("+")) <= {"string-stale-bytes-after-nul", "json-nan-sign-payload-lost"} else [f"message-data-roundtrip:{why}"]):
                         out.append((k, f"{name}: data not byte-identical after Message JSON round trip ({why})"))
+        nd = res.get("msg_rt_nodata")
+        if nd is not None and registered and ver != 0 and ver != th and nd["code"] != 11:
+            out.append(("version-mismatch-not-refused",
+                        f"{name}: JSON without a data member, header version {ver} != hash {th}, decoded with code {nd['code']}"))
         mc = res.get("msg_copy", {})
         if mc.get("code", 1) != 0:
             out.append(("message-copy-raises", f"{name}: Message.copy raised"))
@@ -374,7 +383,7 @@ def oracle(case: dict, res: dict, lv: List[dict], hlv: List[dict], L: Layouts) -
 C10_HEADER = HEADER.replace("Model.Values Model.Flag.", "Model.Values Model.Flag Model.Codec Gen.CodecGuards.") + """
 Definition cexn_code (e : cexn) : Z :=
   match e with CJSONDecoding => 10 | CUnknownMessageType => 12 | CInvalidMessageDefinition => 11
-  | CUnicodeDecode => 7 | CValue => 2 end.
+  | CUnicodeDecode => 7 | CValue => 2 | CKeyError => 13 end.
 Definition res_eq (r : cexn + list Z) (exp : Z * list Z) : bool :=
   match r with inl e => cexn_code e =? fst exp | inr m => (fst exp =? 0) && zl_eqb m (snd exp) end.
 Definition apply_sets (sets : list (field * key * pyval)) (m : list Z) : list Z :=
@@ -388,11 +397,20 @@ Definition check_case (c : (list field * nat * list (field * key * pyval)) * (li
   res_eq (from_bytes size (to_bytes orig)) (0, orig).
 """
 C10_MSG_CHECK = C10_HEADER + """
-Definition check_case (c : (hclass * Z * mclass * list Z * list Z) * (Z * list Z * list Z)) : bool :=
-  let '((hc, tid, mc, h, d), (code, eh, ed)) := c in
+Definition msg_nodata (hc : hclass) (reg : list (Z * mclass)) (h : list Z) : cexn + (list Z * list Z) :=
+  match to_dict (h_leaves hc) h with
+  | inr hv => msg_from_json hc reg (map jrt hv) None
+  | inl _ => inl CUnicodeDecode
+  end.
+Definition check_case (c : (hclass * Z * mclass * list Z * list Z) * (Z * list Z * list Z) * Z) : bool :=
+  let '((hc, tid, mc, h, d), (code, eh, ed), code_nodata) := c in
   match msg_json_roundtrip hc [(tid, mc)] mc h d with
   | inl e => cexn_code e =? code
   | inr (h', d') => (code =? 0) && zl_eqb h' eh && zl_eqb d' ed
+  end &&
+  match msg_nodata hc [(tid, mc)] h with
+  | inl e => cexn_code e =? code_nodata
+  | inr _ => code_nodata =? 0
   end.
 """
 
@@ -402,6 +420,8 @@ def leaf_field_coq(L: Layouts, lf: dict) -> str:
 
 
 def leaves_coq(L: Layouts, lv: List[dict]) -> str:
+    if not lv:
+        return "(@nil field)"
     return "[" + ";".join(leaf_field_coq(L, lf) for lf in lv) + "]"
 
 
@@ -436,14 +456,16 @@ def run(chk: Check):
         chk.note("classes could not be built through the real definition compiler (" + L.compile_error[:160] +
                  "): built directly from the validator descriptors instead")
     own = [i for i in range(len(specs))]
-    allimp = [i for i in range(len(specs), len(L.specs)) if L.specs[i]["fields"] and not L.specs[i].get("skipped")]
+    allimp = [i for i in range(len(specs), len(L.specs)) if not L.specs[i].get("skipped")
+              and (L.specs[i]["fields"] or L.specs[i]["base"] == "data")]
     hdr_ci = next(i for i in allimp if L.specs[i]["name"] == "MessageHeader")
     imported = [i for i in allimp if i != hdr_ci]
     if chk.tier == "quick":
         core = [i for i in imported if L.specs[i]["name"] in (
             "MDF_CONNECT_V2", "MDF_CLIENT_INFO", "MDF_FAILED_MESSAGE", "MDF_DATA_LOGGER_STATUS", "MDF_MESSAGE_TRAFFIC",
             "MDF_LM_STATUS", "MDF_SAVE_MESSAGE_LOG", "DATA_SET", "MDF_TIMING_MESSAGE", "MDF_ACTIVE_CLIENTS",
-            "MDF_VALIDATOR_A", "VALIDATOR_STRUCT", "MDF_ADD_DATA_SET")]
+            "MDF_VALIDATOR_A", "VALIDATOR_STRUCT", "MDF_ADD_DATA_SET", "MDF_EXIT", "MDF_KILL", "MDF_PAUSE_LOGGING",
+            "MDF_DATA_LOGGER_START", "MDF_LM_EXIT")]
         rest = [i for i in imported if i not in core]
         rng.shuffle(rest)
         imported = core + rest[:25]
@@ -479,8 +501,8 @@ def run(chk: Check):
         if not gen_ok or L.size(c["cls"]) > COQ_MAX_SIZE:
             dist["oracle-only(large)"] = dist.get("oracle-only(large)", 0) + 1
             continue
-        sets = "[" + ";".join(f"({leaf_field_coq(L, s['_leaf'])}, {'(KSlice None None None)' if False else key_coq(None)}, {L.val_coq(s['_val'])})"
-                              for s in c["sets"]) + "]"
+        sets = ("[" + ";".join(f"({leaf_field_coq(L, s['_leaf'])}, KAttr, {L.val_coq(s['_val'])})" for s in c["sets"]) + "]"
+                if c["sets"] else "(@nil (field * key * pyval))")
         dres = f"({r['dict_rt']['code']}, {hexl(r['dict_rt'].get('bytes', ''))})"
         jres = f"({r['json_rt']['code']}, {hexl(r['json_rt'].get('bytes', ''))})"
         coq_cases.append(f"(({leaves_coq(L, lv)}, {L.size(c['cls'])}%nat, {sets}), ({hexl(r['orig'])}, {dres}, {jres}))")
@@ -489,7 +511,8 @@ def run(chk: Check):
             m = r["msg_rt"]
             mc = f"(mkClass {leaves_coq(L, lv)} {L.size(c['cls'])} {L.lay[c['cls']]['type_hash']})"
             exp = f"({m['code']}, {hexl(m.get('hdr', ''))}, {hexl(m.get('data', ''))})"
-            msg_cases.append(f"(({hc_coq}, {L.lay[c['cls']]['type_id']}, {mc}, {hexl(r['hdr_orig'])}, {hexl(r['orig'])}), {exp})")
+            msg_cases.append(f"(({hc_coq}, {L.lay[c['cls']]['type_id']}, {mc}, {hexl(r['hdr_orig'])}, {hexl(r['orig'])}), {exp}, "
+                             f"{r['msg_rt_nodata']['code']})")
             msg_idx.append(n)
     bad, log = FAM.eval_cases(C10_CHECK, coq_cases, per_file=60) if gen_ok else ([], "")
     mbad, mlog = FAM.eval_cases(C10_MSG_CHECK, msg_cases, per_file=40, tag="m") if gen_ok else ([], "")
